@@ -200,8 +200,9 @@ func (wg *WeightedAuthorizationModelGraph) calculateEdgeWildcards(edge *Weighted
 	if len(nodeWildcards) == 0 {
 		return
 	}
-	// otherwise add the node wildcards
-	edge.wildcards = nodeWildcards
+	// otherwise add the node wildcards (a copy: the lists of nodes and edges grow independently,
+	// sharing one backing array would let an append to one of them overwrite another)
+	edge.wildcards = slices.Clone(nodeWildcards)
 }
 
 func (wg *WeightedAuthorizationModelGraph) addReferentialWildcardsToEdge(edge *WeightedAuthorizationModelEdge, referentialNodeID string) {
@@ -212,7 +213,7 @@ func (wg *WeightedAuthorizationModelGraph) addReferentialWildcardsToEdge(edge *W
 	}
 	// if the edge does not have any wildcards, we can add the referential node wildcards
 	if len(edge.wildcards) == 0 {
-		edge.wildcards = referentialNode.wildcards
+		edge.wildcards = slices.Clone(referentialNode.wildcards)
 		return
 	}
 	// otherwise add the referential node wildcards to the existing edge wildcards only if the wildcard does not exist in the slice
@@ -230,7 +231,7 @@ func (wg *WeightedAuthorizationModelGraph) addReferentialWildcardsToNode(nodeID 
 	node := wg.nodes[nodeID]
 	// if the node does not have any wildcards, we can add the referential node wildcards
 	if len(node.wildcards) == 0 {
-		node.wildcards = referentialNode.wildcards
+		node.wildcards = slices.Clone(referentialNode.wildcards)
 		return
 	}
 	// otherwise add the referential node wildcards to the existing node wildcards only if the wildcard does not exist in the slice
@@ -251,7 +252,7 @@ func (wg *WeightedAuthorizationModelGraph) addEdgeWildcardsToNode(nodeID string,
 
 	// if the node does not have any wildcards, we can add the edge wildcards
 	if len(node.wildcards) == 0 {
-		node.wildcards = edge.wildcards
+		node.wildcards = slices.Clone(edge.wildcards)
 		return
 	}
 	// otherwise add the edge wildcards to the existing node wildcards only if the wildcard does not exist in the slice
